@@ -83,6 +83,9 @@ Scenario(Scn) ==
     [] Scn = 14 ->  \* installs and a delete in the instances a Flush of both instances is working through
          [nh |-> [n \in NIs |-> One], nhg |-> NoTbl, ip |-> NoTbl, pend |-> <<>>,
           progs |-> [c \in {"A", "B"} |-> IF c = "A" THEN << NH(1, "ADD", D, "2") >> ELSE << NH(2, "DELETE", V, "1") >>], fprog |-> <<D, V>>]
+    [] Scn = 15 ->  \* two top-level entries announced (every instance copied) while a Flush of both instances is between them
+         [nh |-> [n \in NIs |-> One], nhg |-> [n \in NIs |-> [x \in {"1"} |-> One]], ip |-> NoTbl, pend |-> <<>>,
+          progs |-> [c \in {"A", "B"} |-> IF c = "A" THEN << TOP(1, "ADD", "v4", V, "k1", V, "1") >> ELSE << TOP(2, "ADD", "v6", V, "k2", V, "1") >>], fprog |-> <<D, V>>]
     [] Scn >= 100 /\ Scn < 100 + NAlpha * NAlpha -> PairScenario((Scn - 100) \div NAlpha + 1, ((Scn - 100) - NAlpha * ((Scn - 100) \div NAlpha)) + 1)
     [] OTHER -> [nh |-> NoNH, nhg |-> NoTbl, ip |-> NoTbl, pend |-> <<>>, progs |-> [c \in {"A"} |-> <<>>], fprog |-> <<>>]
 
@@ -105,9 +108,9 @@ IdOf(x) == IF x = None THEN 0 ELSE x.id
 \* whatever the walk of caller c could pick next (the actions constrain it further)
 Cands(c) == {pend[k] : k \in DOMAIN pend} \cup UNION {cpc[c].stk[i].todo : i \in DOMAIN cpc[c].stk} \cup {None}
 \* a waiter whose lock has been released runs on by itself: nothing else is scheduled before it is parked again
-Woken == {c \in Callers : Waiting(c) /\ Top(c).op.ni \notin lockF}
+Woken == {c \in Callers : Waiting(c) /\ WaitsFor(c) \cap lockF = {}}
 MCNext ==
-  IF Woken # {} THEN \E c \in Woken : (AddInstall(c) \/ DelRemove(c)) /\ HC(c, "wake") ELSE
+  IF Woken # {} THEN \E c \in Woken : (AddInstall(c) \/ DelRemove(c) \/ WakeCount(c) \/ WakeDone(c)) /\ HC(c, "wake") ELSE
   \/ \E c \in Callers :
        \/ AddBegin(c) /\ HC(c, "addbegin")
        \/ \E x \in Cands(c) :
@@ -117,7 +120,7 @@ MCNext ==
        \/ \E x \in Cands(c) :
             AddWalk(c, x) /\ HC(c, "addwalk")
        \/ NiCall(c) /\ HC(c, "nicall")
-       \/ Block(c) /\ HC(c, "block")
+       \/ (Block(c) \/ BlockCount(c) \/ BlockUncount(c)) /\ HC(c, "block")
        \/ DelBegin(c) /\ HC(c, "delbegin")
        \/ DelRemove(c) /\ HC(c, "delremove")
        \/ DelUncount(c) /\ HC(c, "deluncount")
@@ -126,7 +129,7 @@ MCNext ==
   \/ FlushEnd /\ HF("flushend")
 
 PairScns == 100..(99 + NAlpha * NAlpha)
-AllScns == (1..14) \cup (100..(99 + NAlpha * NAlpha))
+AllScns == (1..15) \cup (100..(99 + NAlpha * NAlpha))
 MCSpec == MCInit /\ [][MCNext]_mcvars
 View == csvars
 
